@@ -20,6 +20,8 @@ CONSTANTS Cand,            \* candidate instance OIDs
           ExchangeFaults,  \* how one request/response exchange of the walk may fail besides what the agent's OIDs say:
                            \*   "noSuchName" (the agent's error-status 2: the documented end of a walk), "genErr" (any other error-status),
                            \*   "foreignId" (InvalidResponseId), "usmReject" (a response the security model refuses); {"none"} switches this off
+          PartialFirst,    \* TRUE: the agent may also cut a GETBULK response inside its first repetition (RFC 3416 4.2.3)
+          PinPartialFirstLost,   \* the columns such a response leaves empty are taken for exhausted subtrees   (fixed: F27)
           PinLenientSwallowsAll  \* errors="warn" catches every SnmpError instead of FaultySNMPImplementation only (seeded C08-m4 / C09-m9)
 
 VARIABLES ag, roots, bulk, errors, pc, nextFetches, contFrom, yielded, nreq, outcome, asked, reask, revealed, hit
@@ -39,12 +41,17 @@ Init == /\ IF Faulty THEN \E F \in [Univ -> FaultyRange \cup {EOMVTOK}] : ag = F
 Fetch(oids) ==
   IF bulk = 0
   THEN LET resp == Row(ag, oids) out == Oids(CutEomv(resp)) IN
-       { [ok |-> GetNextOk(oids, out), vbs |-> out, rev |-> { resp[i].oid : i \in { k \in DOMAIN resp : ~resp[k].eomv } }] }
-  ELSE LET full == Rows(ag, oids, bulk) IN
-       { LET got == SubSeq(full, 1, L) cut == CutEomv(got) IN
+       { [ok |-> GetNextOk(oids, out), vbs |-> out, rev |-> { resp[i].oid : i \in { k \in DOMAIN resp : ~resp[k].eomv } }, extra |-> 0] }
+  ELSE LET full == Rows(ag, oids, bulk) n == Len(oids) IN
+       \* a response that ends inside its first repetition (L < n, no endOfMibView in it) is completed by the bulk fetcher: it asks for the
+       \* missing columns until the first repetition is whole (one more request in this model) - unless pinned
+       { LET short == L < n /\ \A i \in 1..L : ~full[i].eomv
+             L2 == IF short /\ ~PinPartialFirstLost THEN n ELSE L
+             got == SubSeq(full, 1, L2) cut == CutEomv(got) IN
          [ok |-> TRUE, vbs |-> Oids(IF PinCollapse THEN Collapse(cut, {}) ELSE cut),
-          rev |-> { got[i].oid : i \in { k \in DOMAIN got : ~got[k].eomv } }]
-         : L \in BulkPrefixLens(Len(oids), full) }
+          rev |-> { got[i].oid : i \in { k \in DOMAIN got : ~got[k].eomv } },
+          extra |-> IF short /\ ~PinPartialFirstLost THEN 1 ELSE 0]
+         : L \in (IF PartialFirst THEN BulkPrefixLensAny(n, full) ELSE BulkPrefixLens(n, full)) }
 
 Prev(root) == IF \E i \in DOMAIN contFrom : contFrom[i][1] = root
               THEN (CHOOSE p \in ToSet(contFrom) : p[1] = root)[2] ELSE root
@@ -54,7 +61,7 @@ FaultOutcome == IF errors = "warn" /\ ~(PinFirstUnguarded /\ nreq = 0) THEN "ok"
 Round ==
   /\ pc = "fetch"
   /\ \E f \in Fetch(nextFetches) :
-       /\ nreq' = nreq + 1
+       /\ nreq' = nreq + 1 + f.extra
        /\ reask' = (reask \/ \E i \in DOMAIN nextFetches : nextFetches[i] \in asked)
        /\ asked' = asked \cup ToSet(nextFetches)
        /\ revealed' = revealed \cup f.rev
